@@ -194,6 +194,16 @@ def check(recipe) -> list[Fail]:
             elif how == "element":
                 a = next(x for x in model.atoms if x.element == a.element)   # "first atom of that element"
                 mol.del_atom(Element(int(a.element)))
+            elif how == "negindex":
+                # an index counted from the END: refused (nothing changes) or taken as Python does (that atom goes, with its row,
+                # charge and bonds) - never half of each
+                try:
+                    mol.del_atom(model.atoms.index(a) - n)
+                except (ValueError, IndexError, KeyError, TypeError):
+                    fails = invariants(mol, model, step, "del_atom[negindex,refused]")
+                    if fails:
+                        return fails
+                    continue
             else:
                 raise HarnessError("bad how")
             model.delete(a)
@@ -271,6 +281,12 @@ def check(recipe) -> list[Fail]:
             model.coord[id(f)] = None
             model.charge[id(f)] = None
             model.bonds.append(frozenset((id(a), id(f))))
+            if name == "append_bond_steal" and (op[1] + op[2]) % 2:
+                # ... and the molecule it came from then strikes it off its own list: the atom lives HERE now (parent, index, row)
+                try:
+                    donor.del_atom(f)
+                except Exception:
+                    pass
         elif name == "del_bond":
             if not model.bonds:
                 continue
@@ -412,7 +428,7 @@ def _ops(maxlen):
     op = st.one_of(
         st.tuples(st.just("add_atom"), _i, _coord, _q).map(list),
         st.tuples(st.just("new_atom"), _i, _coord).map(list),
-        st.tuples(st.just("del_atom"), st.sampled_from(["obj", "index", "label", "element"]), _i).map(list),
+        st.tuples(st.just("del_atom"), st.sampled_from(["obj", "index", "label", "element", "negindex"]), _i).map(list),
         st.tuples(st.just("connect"), _i, _i, _bt).map(list),
         st.tuples(st.just("append_bond"), _i, _i, _bt).map(list),
         st.tuples(st.sampled_from(["append_bond_foreign", "append_bonds_foreign", "extend_bonds_foreign"]), _i, _i, st.booleans()).map(list),
@@ -455,7 +471,7 @@ _START3 = {
 }
 _ALPHA = [
     ["add_atom", 0, [1.0, 2.0, 3.0], 0.5], ["add_atom", 1, [4.0, 5.0, 6.0], None], ["new_atom", 2, [7.0, 8.0, 9.0]],
-    ["del_atom", "obj", 0], ["del_atom", "index", 1], ["del_atom", "label", 2], ["del_atom", "element", 0], ["del_atom", "element", 1],
+    ["del_atom", "obj", 0], ["del_atom", "index", 1], ["del_atom", "label", 2], ["del_atom", "element", 0], ["del_atom", "element", 1], ["del_atom", "negindex", 2],
     ["connect", 1, 2, 1], ["append_bond", 0, 2, 2], ["append_bond_foreign", 0, 3, True], ["append_bonds_foreign", 1, 0, False], ["extend_bonds_foreign", 2, 1, True],
     ["append_bond_readopt", 0, 0, True], ["append_bond_steal", 1, 1, False],
     ["sub_del_bond", [0, 1, 2], 0],
@@ -481,5 +497,5 @@ LEGS = [
     Leg("hist", check, classify, strategy=strat, n={"quick": 4000, "thorough": 40000}, shards={"quick": 16, "thorough": 32},
         rule="Hypothesis-generated edit histories (<=40 ops over add_atom / new_atom / del_atom by object|index|label|Element / connect / append_bond(s) / extend_bonds incl. foreign atoms / del_bond / remove_substituent / add_implicit_hydrogens / substructure write / re-use of a kept substructure view after later edits) on Molecule and Structure, started from empty, generated, cloned and bundled-mol2 molecules; " + _NT),
     Leg("short", check, classify, enumerate=enum_short, exhaustive=True, shards={"quick": 16, "thorough": 64},
-        rule="ALL op sequences of length <=3 (quick) / <=4 (thorough) over a 27-letter op alphabet from a 3-atom start x {Molecule, Structure} x {built, cloned}; " + _NT),
+        rule="ALL op sequences of length <=3 (quick) / <=4 (thorough) over a 28-letter op alphabet from a 3-atom start x {Molecule, Structure} x {built, cloned}; " + _NT),
 ]
